@@ -182,8 +182,12 @@ def gen_params(ctx):
     flags = ["-std=gnu11", "-I" + V.REPO, "-I" + V.GEN_INC, "-DNDEBUG"]
     src = os.path.join(V.REPO, REPO_SOURCES[0])
     sizeofs = {}
-    if vals.get("hdr_size", "").isdigit():
-        sizeofs["muggle_shm_ringbuf_data_hdr_t"] = int(vals["hdr_size"])
+    # sizes as printed by the params program of this run (the block type of the .c file is
+    # static_asserted there to be one cache line)
+    for ty, key in (("muggle_shm_ringbuf_data_hdr_t", "hdr_size"), ("muggle_shm_ringbuf_t", "ring_hdr_size"),
+                    ("muggle_shm_ringbuf_block_t", "cache_line")):
+        if vals.get(key, "").isdigit():
+            sizeofs[ty] = int(vals[key])
     for leaf in LEAVES:
         try:
             lines.append(S.translate_sliced(src, "muggle_shm_ringbuf_" + leaf, flags, "gen_" + leaf, sizeofs)[0])
